@@ -12,7 +12,7 @@ import z3
 from . import seqs as Q
 from . import values as V
 from .engine import PyRaise, SExc
-from .seqs import DRef, LRef, SObj, SRange, SSeq, SSlice
+from .seqs import DRef, LRef, ModelObj, SObj, SRange, SSeq, SSlice
 from .values import SAtom, SBool, SInt, SOpaque, SOpt, SReal, Sym, Unsupported, both, either, imax, imin, is_num, ite, mk_bool, mk_int, neg
 
 
@@ -50,6 +50,8 @@ def seq_repeat(st, s, n):
 
 def get_subscript(ip, st, obj, idx):
     obj = st.force(obj)
+    if isinstance(obj, ModelObj):
+        return obj.py_getitem(ip, st, idx)
     if isinstance(obj, SObj):
         if obj.base_list:
             return get_subscript(ip, st, obj.fields[obj.base_list], idx)
@@ -109,6 +111,8 @@ def get_subscript(ip, st, obj, idx):
 
 def set_subscript(ip, st, obj, idx, v):
     obj = st.force(obj)
+    if isinstance(obj, ModelObj):
+        return obj.py_setitem(ip, st, idx, v)
     if isinstance(obj, SObj) and obj.base_list:
         f = ip.getattr(st, obj, "__setitem__")
         return ip.call(st, f, [idx, v])
@@ -125,6 +129,8 @@ def set_subscript(ip, st, obj, idx, v):
 
 def del_subscript(ip, st, obj, idx):
     obj = st.force(obj)
+    if isinstance(obj, ModelObj):
+        return obj.py_delitem(ip, st, idx)
     if isinstance(obj, SObj) and obj.base_list:
         f = ip.getattr(st, obj, "__delitem__")
         return ip.call(st, f, [idx])
@@ -375,6 +381,8 @@ def list_method(ip, st, lref: LRef, name, args, kwargs):
 
 
 def call_method(ip, st, recv, name, args, kwargs):
+    if isinstance(recv, ModelObj):
+        return recv.py_call(ip, st, name, args, kwargs)
     if isinstance(recv, tuple) and recv and recv[0] == "super":
         _, obj, cls = recv
         if cls is list and obj.base_list:
@@ -468,6 +476,8 @@ def call_method(ip, st, recv, name, args, kwargs):
 
 def b_len(ip, st, x):
     x = st.force(x)
+    if isinstance(x, ModelObj):
+        return x.py_len(st)
     if type(x).__name__ == "SText":
         return x.length
     if isinstance(x, SObj):
@@ -837,6 +847,12 @@ def b_chr(ip, st, n):
         _raise(ValueError, str(ex))
 
 
+def b_next(ip, st, it, *default):
+    if isinstance(it, ModelObj):
+        return it.py_call(ip, st, "__next__", [], {})
+    raise Unsupported("next() of a non-model iterator")
+
+
 def b_id(ip, st, x):
     raise Unsupported("id()")
 
@@ -902,6 +918,7 @@ TABLE = {
     id: b_id,
     contextlib.suppress: b_suppress,
     setattr: b_setattr,
+    next: b_next,
     __import__("itertools").chain: b_chain,
     functools.wraps: b_wraps,
 }
